@@ -142,7 +142,7 @@ impl<T: Qcow2IoOps> Qcow2Dev<T> {
                 let res = async {
                     // figure exact dependency on refcount cache & reftable entries
                     self.flush_refcount().await?;
-                    self.flush_cache_entries(to_kill).await
+                    self.flush_cache_entries(to_kill, true).await
                 }
                 .await;
                 if res.is_err() {
@@ -203,9 +203,13 @@ impl<T: Qcow2IoOps> Qcow2Dev<T> {
         }
     }
 
+    /// `mapping`: the slices are l2 slices. Whatever they map has to be
+    /// refcounted on disk before they are written, so the refcount meta
+    /// is flushed once more after the slices are locked against updates.
     pub(crate) async fn flush_cache_entries<B: Table>(
         &self,
         v: Vec<(usize, AsyncLruCacheEntry<AsyncRwLock<B>>)>,
+        mapping: bool,
     ) -> Qcow2Result<()> {
         let info = &self.info;
         let tv = &v;
@@ -322,6 +326,24 @@ impl<T: Qcow2IoOps> Qcow2Dev<T> {
             }
         }
 
+        if mapping && !cache_vec.is_empty() {
+            // The read locks held in `cache_vec` keep new mappings out of
+            // these slices, and a cluster is allocated (its refcount updated
+            // in ram) before it is mapped. A write_at() which ran since the
+            // caller flushed the refcount meta may have added mappings
+            // though, so catch up with it: a mapping must never reach the
+            // disk before the refcount of the cluster it points to.
+            // (Boxed: flush_refcount() gets back here for refcount blocks.)
+            let res = Box::pin(self.flush_refcount()).await;
+            if let Err(err) = res {
+                for e in cleared {
+                    e.set_dirty(true);
+                }
+                self.mark_need_flush(true);
+                return Err(err);
+            }
+        }
+
         let mut f_vec = Vec::new();
         for cache in cache_vec.iter() {
             log::trace!(
@@ -374,6 +396,7 @@ impl<T: Qcow2IoOps> Qcow2Dev<T> {
         cache: &AsyncLruCache<usize, AsyncRwLock<C>>,
         start: usize,
         end: usize,
+        mapping: bool,
     ) -> Qcow2Result<bool> {
         let entries = cache.get_dirty_entries(start, end);
 
@@ -385,7 +408,7 @@ impl<T: Qcow2IoOps> Qcow2Dev<T> {
                 end,
             );
 
-            self.flush_cache_entries(entries).await?;
+            self.flush_cache_entries(entries, mapping).await?;
             Ok(true)
         } else {
             Ok(false)
@@ -428,6 +451,7 @@ impl<T: Qcow2IoOps> Qcow2Dev<T> {
         rt: &A,
         cache: &AsyncLruCache<usize, AsyncRwLock<B>>,
         key_fn: F,
+        mapping: bool,
     ) -> Qcow2Result<bool>
     where
         F: Fn(u64) -> usize,
@@ -439,7 +463,7 @@ impl<T: Qcow2IoOps> Qcow2Dev<T> {
             let end = key_fn(((idx + 1) as u64) << bs_bits);
 
             let res = async {
-                if self.flush_cache(cache, start, end).await? {
+                if self.flush_cache(cache, start, end, mapping).await? {
                     // order cache flush and the upper layer table
                     self.call_fsync(0, usize::MAX, 0).await?;
                 }
@@ -455,7 +479,7 @@ impl<T: Qcow2IoOps> Qcow2Dev<T> {
             Ok(false)
         } else {
             // flush cache without holding top table read lock
-            if self.flush_cache(cache, 0, usize::MAX).await? {
+            if self.flush_cache(cache, 0, usize::MAX, mapping).await? {
                 self.call_fsync(0, usize::MAX, 0).await?;
             }
             Ok(true)
@@ -499,9 +523,12 @@ impl<T: Qcow2IoOps> Qcow2Dev<T> {
         loop {
             let rt = &*self.reftable.read().await;
             let done = self
-                .flush_meta_generic(rt, &self.refblock_cache, |off| {
-                    self.rb_slice_key_of_rt_off(off)
-                })
+                .flush_meta_generic(
+                    rt,
+                    &self.refblock_cache,
+                    |off| self.rb_slice_key_of_rt_off(off),
+                    false,
+                )
                 .await?;
             if done {
                 break;
@@ -514,7 +541,12 @@ impl<T: Qcow2IoOps> Qcow2Dev<T> {
     pub(crate) async fn flush_mapping(&self, l1: &L1Table) -> Qcow2Result<()> {
         loop {
             let done = self
-                .flush_meta_generic(l1, &self.l2cache, |off| self.l2_slice_key_of_l1_off(off))
+                .flush_meta_generic(
+                    l1,
+                    &self.l2cache,
+                    |off| self.l2_slice_key_of_l1_off(off),
+                    true,
+                )
                 .await?;
             if done {
                 break;
@@ -560,7 +592,12 @@ impl<T: Qcow2IoOps> Qcow2Dev<T> {
             let l1 = &*self.l1table.read().await;
 
             let done = self
-                .flush_meta_generic(l1, &self.l2cache, |off| self.l2_slice_key_of_l1_off(off))
+                .flush_meta_generic(
+                    l1,
+                    &self.l2cache,
+                    |off| self.l2_slice_key_of_l1_off(off),
+                    true,
+                )
                 .await?;
             if done {
                 break;
